@@ -65,6 +65,16 @@ def opBrier : Op := fun j => do
   let xs ← fFlList j "xs"; let y ← fFl j "y"; let θ ← fFl j "theta"; let fair ← fBool j "fair"
   pure (outFl (brierEns fair xs y θ))
 
-def ops : OpTable := [("c06.run", opRun), ("c06.spec", opSpec), ("c06.brier", opBrier)]
+/-- Brier score of one case at a list of thresholds: the documented formula (Spec) and the model of the code -/
+def opBrierAt : Op := fun j => do
+  let xs ← fFlList j "xs"; let y ← fFl j "y"; let ts ← getList getRat (← field j "thetas"); let fair ← fBool j "fair"
+  let fx := Spec.CrpsEns.finVals xs
+  let spec : List Fl := match y with
+    | Fl.fin q => if fx.isEmpty then ts.map fun _ => Fl.nan else
+        ts.map fun θ => Fl.fin (Spec.CrpsEns.brier fx q θ - (if fair then Spec.CrpsEns.brierFairCorr fx θ else 0))
+    | _ => ts.map fun _ => Fl.nan
+  pure <| outObj [("spec", outFlList spec), ("model", outFlList (ts.map fun θ => brierEns fair xs y (Fl.fin θ)))]
+
+def ops : OpTable := [("c06.run", opRun), ("c06.spec", opSpec), ("c06.brier", opBrier), ("c06.brier_at", opBrierAt)]
 
 end SV.Driver.C06
